@@ -199,6 +199,13 @@ def judge(case):
                 continue
             victims = rng.sample(rs, min(len(rs), rng.choice([1, 1, 2, 3])))
             ids = [v[0] for v in victims]
+            # ids that name no row (stale, never used) and repeated ids, anywhere in the list: the live rows named
+            # next to them are still the ones to go
+            if rng.random() < 0.5:
+                extra = [max(x[0] for x in rs) + rng.choice([1, 1000]), ids[0]]
+                for e in extra[:rng.choice([1, 2])]:
+                    ids.insert(rng.randrange(len(ids) + 1), e)
+                step["with_ids_naming_no_row_or_repeated"] = True
             step["ids"] = ids
             r = run_cicada(sb, ["-c", "history delete %s" % " ".join(str(i) for i in ids)], cwd=cwd, timeout=30)
             keep = []
@@ -211,7 +218,7 @@ def judge(case):
             model[:] = keep
             bad = check_rows(step, "delete")
             if bad:
-                return ("violated", "C18:delete:%s" % bad, res)
+                return ("violated", "C18:delete:%s%s" % (bad, ":list-has-stale-or-repeated-ids" if step.get("with_ids_naming_no_row_or_repeated") else ""), res)
     res["final_rows"] = len(model)
     return ("held", None, res)
 
